@@ -272,6 +272,37 @@ func rulesC10(e *Engine, r *Report) {
 		}
 		r.Min("R10.5", "completion path classes", n, 2)
 	}
+	// ---------------------------------------------------------------- R10.6
+	r.Rule("R10.6", "skipping already-handled placeholders keeps the chain: in Pop's skip loop the node that is unlinked is the predecessor of the placeholder being skipped, read from that placeholder BEFORE the scan moves on (so the last placeholder stays in the chain as predecessor of the first real file); the placeholder leaves the index, the group list is cut by the number skipped, and the head file of a group is never skipped")
+	if fn := needFn(e, r, "R10.6", "queue.(*Tagged).Pop"); fn != nil {
+		var cur string
+		n := 0
+		for _, in := range e.findInstrs(fn, "call(queue.(*Tagged).removeFile)(p0, phi(p0.headFile[§]|phi#.next))", false) {
+			n++
+			cur = e.Canon(in.(ssa.CallInstruction).Common().Args[1])
+			hdr, _ := innermostLoop(in)
+			ul := e.findInstrs(fn, "call(queue.(*sortedFile).unlink)(§)", false)
+			found := false
+			for _, u := range ul {
+				h2, _ := innermostLoop(u)
+				if h2 != hdr || hdr == nil {
+					continue
+				}
+				found = true
+				arg := e.Canon(u.(ssa.CallInstruction).Common().Args[0])
+				r.Check(arg == cur+".prev", "R10.6", "queue.(*Tagged).Pop: the skip loop unlinks the skipped placeholder's predecessor", e.InstrPos(u),
+					"the skip loop unlinks "+arg+" instead of the predecessor of the placeholder it is skipping ("+cur+".prev): the placeholder itself drops out of the chain and the next real file announces no (or an older) predecessor", 1, arg)
+				r.Check(hasStr(e.domConds(u.Block()), "("+cur+".prev != nil)"), "R10.6", "queue.(*Tagged).Pop: unlink only an existing predecessor", e.InstrPos(u), "unlink is called without the nil test", 1)
+			}
+			r.Check(found, "R10.6", "queue.(*Tagged).Pop: the skip loop trims the chain behind the placeholder", e.InstrPos(in), "nothing is unlinked while placeholders are skipped (the chain grows without bound) or the unlink left the loop", 1)
+			conds := e.domConds(in.Block())
+			r.Check(hasStr(conds, "call(queue.(*sortedFile).isAllocated)("+cur+")") && hasStr(conds, "("+cur+".next != nil)"), "R10.6", "queue.(*Tagged).Pop: only a fully allocated file that has a successor is skipped", e.InstrPos(in),
+				"a file is dropped from the index although it is not fully allocated, or although it is the head that must stay", 1, conds...)
+		}
+		r.Min("R10.6", "placeholder removals in the skip loop", n, 1)
+		cut := e.findInstrs(fn, "mapupdate(p0.list[§.name] = p0.list[§.name][phi((phi# + 1)|0):])", false)
+		r.Check(len(cut) == 1, "R10.6", "queue.(*Tagged).Pop: the group list is cut by the number of placeholders skipped", e.Pos(fn.Pos()), "the sorted list and the chain get out of step after skipping placeholders", 1)
+	}
 }
 
 func rulesC12(e *Engine, r *Report) {
